@@ -43,7 +43,7 @@ partial def toEvents (own : List (Nat Ã— Nat)) : List Line â†’ List (Option Ev Ã
       | [] => bad ()
     match l.site with
     | "sl.lock" | "ag.yield" | "ul.lock" | "ul.spin" => go rest acc
-    | "stop.cas" | "stop.held" | "stop.rm_check" | "stop.pre_exec" | "stop.post_exec" => go rest acc
+    | "stop.cas" | "stop.held" | "stop.rm_check" | "stop.pre_exec" | "stop.post_exec" | "stop.finw" => go rest acc
     | "stop.load" | "stop.casfail" | "stop.reload" =>
       if l.b == 2 && stopBitSet l.a then push (.stSeen t) else go rest acc
     | "inv.swaitp" => push (.inv t (.swait false))
